@@ -83,6 +83,10 @@ type Vector struct {
 	SrcBoc string    `json:"srcboc"`
 	// Preread: see the package comment
 	Preread string `json:"preread"`
+	// Bag: the source tree (Cells) has Merkle-proof / Merkle-update cells below its root; it is handed over as this bag of
+	// cells written by the specification (the root of the bag is the source) and - when it has no pruned branches - also
+	// built in memory with boc.NewCellExotic
+	Bag string `json:"bag"`
 }
 
 var DictModes = []string{"tree", "dag", "boc"}
@@ -115,6 +119,57 @@ func build(t *cells.Table, mode string) (*boc.Cell, error) {
 		return viaBoc(roots[0])
 	}
 	return nil, fmt.Errorf("unknown mode %q", mode)
+}
+
+// buildMerkle makes, in memory, a tree whose rows are ordinary cells and Merkle-proof / Merkle-update cells (public API:
+// NewCellExotic, WriteBit, AddRef); every use of a row gets its own copy.
+func buildMerkle(t *cells.Table) (*boc.Cell, error) {
+	var mk func(i int) (*boc.Cell, error)
+	mk = func(i int) (*boc.Cell, error) {
+		c := boc.NewCell()
+		switch t.Cells[i].X {
+		case 0:
+		case int(boc.MerkleProofCell):
+			c = boc.NewCellExotic(boc.MerkleProofCell)
+		case int(boc.MerkleUpdateCell):
+			c = boc.NewCellExotic(boc.MerkleUpdateCell)
+		default:
+			return nil, fmt.Errorf("row %d: type %d cannot be built in memory", i, t.Cells[i].X)
+		}
+		for _, ch := range t.Cells[i].B {
+			if err := c.WriteBit(ch == '1'); err != nil {
+				return nil, err
+			}
+		}
+		for _, r := range t.Cells[i].R {
+			k, err := mk(r)
+			if err != nil {
+				return nil, err
+			}
+			if err := c.AddRef(k); err != nil {
+				return nil, err
+			}
+		}
+		c.ResetCounters()
+		return c, nil
+	}
+	return mk(t.Roots[0])
+}
+
+// rootOfBag parses a bag of cells with one root.
+func rootOfBag(hexBag string) (*boc.Cell, error) {
+	b, err := hex.DecodeString(hexBag)
+	if err != nil {
+		return nil, err
+	}
+	roots, err := boc.DeserializeBoc(b)
+	if err != nil {
+		return nil, err
+	}
+	if len(roots) != 1 {
+		return nil, fmt.Errorf("bag has %d roots", len(roots))
+	}
+	return roots[0], nil
 }
 
 func viaBoc(c *boc.Cell) (*boc.Cell, error) {
@@ -151,6 +206,7 @@ type twoStep struct {
 	orig    []cells.C
 	srcBoc  string
 	preread string
+	bag     string // the source is the root of this bag (trees with Merkle cells below the root)
 }
 
 // readAll advances the read cursors of every cell of the DAG (about half of the bits, the first reference) and resets nothing.
@@ -215,6 +271,9 @@ func reset(w *ev.Writer, root *boc.Cell, kind, src, mode string, vec, n int, ts 
 	}
 	if ts != nil && ts.preread != "" {
 		m["preread"] = ts.preread
+	}
+	if ts != nil && ts.bag != "" {
+		m["bag"] = ts.bag
 	}
 	w.Emit(m)
 }
@@ -362,6 +421,43 @@ func run(w *ev.Writer, v *Vector) error {
 			runScript(w, root, v.Script, v.ExpHash, v.Src, "proof", v.Vec, ts)
 		default:
 			return fmt.Errorf("vector %d: unknown kind %q", v.Vec, v.T)
+		}
+		return nil
+	}
+	if v.Bag != "" {
+		if v.T != "walk" {
+			return fmt.Errorf("vector %d: a bag source is for cursor walks", v.Vec)
+		}
+		for i := range v.Cells {
+			if v.Cells[i].R == nil {
+				v.Cells[i].R = []int{}
+			}
+		}
+		tab := &cells.Table{Cells: v.Cells, Roots: v.Roots}
+		inMemory := true
+		for _, c := range v.Cells {
+			inMemory = inMemory && c.X != int(boc.PrunedBranchCell)
+		}
+		for _, mode := range []string{"boc", "tree"} {
+			if len(v.Modes) > 0 && v.Modes[0] != mode || mode == "tree" && !inMemory {
+				continue
+			}
+			var root *boc.Cell
+			var err error
+			if mode == "boc" {
+				root, err = rootOfBag(v.Bag)
+			} else {
+				root, err = buildMerkle(tab)
+			}
+			if err != nil {
+				return fmt.Errorf("vector %d: cannot build the source with Merkle cells (%s): %v", v.Vec, mode, err)
+			}
+			ts2 := &twoStep{preread: v.Preread}
+			preread(root, v.Preread, 0, nil)
+			if mode == "boc" {
+				ts2.bag = v.Bag
+			}
+			runScript(w, root, v.Script, v.ExpHash, v.Src, mode, v.Vec, ts2)
 		}
 		return nil
 	}
